@@ -147,23 +147,7 @@ func (w *c09World) genKey(st *c09Stream) []byte {
 	s := w.s
 	switch s.Draw("key-class", 4) {
 	case 0: // a peer id
-		switch s.Draw("key-peer", 6) {
-		case 0:
-			if len(w.rt) > 0 {
-				return []byte(w.rt[s.Draw("key-rt", len(w.rt))])
-			}
-			return []byte(w.foreign[0])
-		case 1:
-			return []byte(st.sender.ID)
-		case 2:
-			return []byte(w.u.Self.ID)
-		case 3:
-			return []byte(w.extras[s.Draw("key-extra", len(w.extras))].ID)
-		case 4:
-			return []byte(w.foreign[s.Draw("key-foreign", len(w.foreign))])
-		default:
-			return []byte(w.prober.ID)
-		}
+		return w.genPeerKey(st)
 	case 1: // provider keys (prefilled ones first)
 		pool := append(append([][]byte{}, w.provKeys...), c09Key("prov-81", 81), c09Key("prov-new", 32))
 		return pool[s.Draw("key-prov", len(pool))]
@@ -262,6 +246,11 @@ func (w *c09World) genMessage(st *c09Stream) *pb.Message {
 		return mm
 	}
 	m.Key = w.genKey(st)
+	if w.variant == c09HugeK && m.Type == pb.Message_FIND_NODE && !s.Chance("huge-any-key", 1, 4) {
+		// FIND_NODE is a question about a peer: most of the time ask for one,
+		// of every class the node can know (c09_targets.go)
+		m.Key = w.genPeerKey(st)
+	}
 	if (m.Type == pb.Message_PUT_VALUE || m.Type == pb.Message_GET_VALUE) && !s.Chance("value-key-any", 1, 3) {
 		m.Key = w.valKeys[s.Draw("key-val", len(w.valKeys))]
 	}
@@ -294,9 +283,18 @@ func (w *c09World) genHonest(st *c09Stream) *pb.Message {
 	s := w.s
 	switch s.Draw("honest-type", 5) {
 	case 0:
+		// an honest peer may ask for anybody: somebody unknown, a table member,
+		// a known non-member, the node, itself
 		key := []byte(w.foreign[0])
-		if len(w.rt) > 0 && s.Chance("honest-known-target", 1, 2) {
-			key = []byte(w.rt[s.Draw("key-rt", len(w.rt))])
+		switch s.Draw("honest-target", 4) {
+		case 1:
+			if len(w.rt) > 0 {
+				key = []byte(w.rt[s.Draw("key-rt", len(w.rt))])
+			}
+		case 2:
+			key = []byte(w.extras[s.Draw("key-extra", len(w.extras))].ID)
+		case 3:
+			key = []byte([]peer.ID{st.sender.ID, w.u.Self.ID, w.prober.ID}[s.Draw("honest-target-special", 3)])
 		}
 		return pb.NewMessage(pb.Message_FIND_NODE, key, 0)
 	case 1:
@@ -325,6 +323,9 @@ func (w *c09World) finalProbeMessages() []*pb.Message {
 	}
 	if w.bigKey != nil {
 		out = append(out, pb.NewMessage(pb.Message_GET_PROVIDERS, w.bigKey, 0))
+	}
+	if w.variant == c09HugeK {
+		out = append(out, w.targetClassProbes()...)
 	}
 	return out
 }
